@@ -54,19 +54,6 @@ GearSpecialName(ab, lb) ==
             ELSE IF HasFlag(r, "I") THEN (IF shortform \/ lb = 0 THEN QName(r) ELSE Unnamed)
             ELSE IF lb = 0 THEN QName(r) ELSE Unnamed
 
-\* device types whose application extended commands are in the tables use them for opcodes >= 224;
-\* what a standard opcode means after ENABLE DEVICE TYPE x is left open here (not judged)
-Name16(f, dt) ==
-    LET a7 == f \div 512
-        sel == BitOfInt(f, 8)
-        op == f % 256
-    IN IF GearOf7(a7) # None THEN
-           IF sel = 0 THEN "102.DAPC"
-           ELSE IF dt = 0 THEN GearStdName(0, op)
-           ELSE IF dt \in ImplementedDTs /\ op >= 224 THEN GearStdName(dt, op)
-           ELSE Unnamed
-       ELSE GearSpecialName(f \div 256, op)
-
 DevName(op) == LET hits == {i \in 1..Len(Dev103) : Dev103[i][3] = op} IN
                IF hits = {} THEN Unnamed ELSE QName(Dev103[CHOOSE i \in hits : TRUE])
 InstName(op) == LET hits == {i \in 1..Len(Inst103) : Inst103[i][3] = op} IN
@@ -80,12 +67,32 @@ DevSpecialName(ab, ib, ob) ==
             IN IF HasFlagS(r[5], "2") \/ HasFlagS(r[5], "1") THEN QName(r)
                ELSE IF ob = 0 THEN QName(r) ELSE Unnamed
 
+\* constant lookup tables (evaluated once by TLC) so that table judging is cheap
+DTsWithRows == {0} \cup ImplementedDTs
+GearStdTab == [dt \in DTsWithRows |-> [op \in 0..255 |-> GearStdName(dt, op)]]
+GearSpecialTab == [ab \in 0..255 |-> [lb \in 0..255 |-> GearSpecialName(ab, lb)]]
+DevTab == [op \in 0..255 |-> DevName(op)]
+InstTab == [op \in 0..255 |-> InstName(op)]
+
+\* device types whose application extended commands are in the tables use them for opcodes >= 224;
+\* what a standard opcode means after ENABLE DEVICE TYPE x is left open here (not judged)
+Name16(f, dt) ==
+    LET a7 == f \div 512
+        sel == BitOfInt(f, 8)
+        op == f % 256
+    IN IF GearOf7(a7) # None THEN
+           IF sel = 0 THEN "102.DAPC"
+           ELSE IF dt = 0 THEN GearStdTab[0][op]
+           ELSE IF dt \in ImplementedDTs /\ op >= 224 THEN GearStdTab[dt][op]
+           ELSE Unnamed
+       ELSE GearSpecialTab[f \div 256][op]
+
 \* 24-bit command frames (bit 16 = 1); event frames are Events103's business
 Name24(f) ==
     LET a7 == f \div 131072
         ib == (f \div 256) % 256
         ob == f % 256
     IN IF BitOfInt(f, 16) = 0 THEN "event"
-       ELSE IF DevOf7(a7) # None THEN (IF ib = 254 THEN DevName(ob) ELSE InstName(ob))
+       ELSE IF DevOf7(a7) # None THEN (IF ib = 254 THEN DevTab[ob] ELSE InstTab[ob])
        ELSE DevSpecialName(f \div 65536, ib, ob)
 =============================================================================
